@@ -445,7 +445,7 @@ def c11(tier, repo=None):
                                          "data-race freedom itself is not a trace property: the thorough tier additionally runs the replay under the Go race detector"])
 
 
-def wide_fanout_scenarios():
+def wide_fanout_scenarios(reps=6):
     """A node with a branch AND 3 / 5 / 6 / 7 plain successors (the compiled successor slices then have spare capacity), different
     branch outcomes per concurrent run: per-run routing must not go through memory shared by the runs of one compiled graph."""
     out = []
@@ -458,7 +458,7 @@ def wide_fanout_scenarios():
             out.append({"mode": mode, "nodes": nodes, "edges": edges, "fam": "wide",
                         "branches": [{"from": "a", "ends": ["y", "z"], "multi": False, "pol": [["y"], ["z"], ["y"], ["z"]]}],
                         "max": 0, "before": [], "after": [], "rerun": [], "state": False, "fail": []})
-    return [copy.deepcopy(sc) for _ in range(6) for sc in out]
+    return [copy.deepcopy(sc) for _ in range(reps) for sc in out]
 
 
 def c09(tier, repo=None):
@@ -482,7 +482,8 @@ def c09(tier, repo=None):
     rnd.shuffle(scs)
     scs = scs[: 2500 if quick else 20000]
     scs += nest(scs, rnd, 0.15, True)
-    scs += wide_fanout_scenarios()
+    wide = wide_fanout_scenarios(120 if quick else 600)     # the window is a few instructions wide: many repetitions
+    scs += wide
     engine.decorate(scs, seed=vlib.SEED, state_variants=True, noid_frac=0.05)
     for sc in scs:
         if rnd.random() < 0.4:          # not every scenario stateful
@@ -521,7 +522,8 @@ def c09(tier, repo=None):
         verdict.violation("concurrent-run-differs:" + reason, {"scenario": by_id[cid.split("#")[0]], "callers": callers, "observations": obs}, reason)
     # data races: a smaller replay under the race detector
     nrace = 250 if quick else 2500
-    _, wall_race, out_race = engine.replay_concurrent(scs[:nrace], callers=callers, race=True, repo=repo, timeout=2400)
+    race_set = wide[:40] + scs[:nrace]                      # the race detector sees conflicting accesses even when the window is missed
+    _, wall_race, out_race = engine.replay_concurrent(race_set, callers=callers, race=True, repo=repo, timeout=2400)
     reps = engine.race_reports(out_race)
     for r in reps[:5]:
         verdict.violation("data-race:" + r["top_frame"], {"race_report": r}, r["file"])
